@@ -77,6 +77,7 @@ func cmdCheck(args []string) int {
 	verbose := fs.Bool("v", false, "verbose")
 	noReplay := fs.Bool("no-replay", false, "skip native replay/validation (debugging)")
 	budget := fs.Duration("budget", 0, "per-harness wall-clock budget override")
+	profile := fs.Bool("profile", false, "count symbolic branch sites")
 	qto := fs.Int("qtimeout", 0, "primary solver per-query timeout in ms")
 	noIfConv := fs.Bool("no-ifconv", false, "disable if-conversion (debugging)")
 	twin := fs.Bool("twin", false, "vacuity twin: negate every final assertion (must be violated)")
@@ -100,6 +101,7 @@ func cmdCheck(args []string) int {
 		cfg.seed, _ = strconv.ParseInt(s, 10, 64)
 	}
 	_ = twin
+	cfg.profile = *profile
 	if *qto > 0 {
 		cfg.queryTimeoutMs = *qto
 	}
@@ -170,6 +172,9 @@ func cmdCheck(args []string) int {
 	for _, w := range ws {
 		rep.solver.add(w.in.solver.stats)
 		rep.instrs += w.in.stats.Instrs
+	}
+	if cfg.profile {
+		cfg.dumpSites()
 	}
 	return rep.finish(!*noReplay)
 }
